@@ -1,7 +1,8 @@
 /-
   C26Lemmas — helper development for property C26 (derived data refers to the frame it was derived from).
 
-    A. `stepG .walSeq = step`: the `walSeq` policy of MvModel/Derived.lean IS the shared Core model.
+    A. `stepG .frameId = step`: the `frameId` policy of MvModel/Derived.lean IS the shared Core model
+       (which mirrors the repaired code); `walSeq` is the code as it was before a8580e2.
     B. `SameDer`: commits, checkpoints, index rebuilds, WAL growth never touch cards / enrichment
        records / the enrichment queue (only `put_internal` creates derived data).
     C. What one accepted `put_internal` adds to the derived data (`putTailG_derived` …).
@@ -15,10 +16,10 @@ import MvProps.CoreLemmas
 import MvModel.Derived
 namespace Mv.Core
 
-/-! ## A. the `walSeq` policy is the shared model -/
+/-! ## A. the `frameId` policy is the shared model (Core.lean mirrors the repaired code, a8580e2) -/
 
-theorem appendPutG_walSeq (m : Mem) (a : PutArgs) (sup reuse : Option Nat) :
-    m.appendPutG (m.seq + 1) a sup reuse = m.appendPut a sup reuse := rfl
+theorem appendPutG_frameId (m : Mem) (a : PutArgs) (sup reuse : Option Nat) :
+    m.appendPutG m.nextFrameId a sup reuse = m.appendPut a sup reuse := rfl
 
 /-- a rejected `putTail` leaves the handle as it was -/
 theorem putTail_rejected (m : Mem) (a : PutArgs) (sup reuse : Option Nat) (t : Trace) :
@@ -34,15 +35,15 @@ theorem putTail_rejected (m : Mem) (a : PutArgs) (sup reuse : Option Nat) (t : T
 theorem putTail_accepted (m : Mem) (a : PutArgs) (sup reuse : Option Nat) (t : Trace) :
     (m.putTail a sup reuse t).2.isAck = true →
     m.putTail a sup reuse t =
-      ((((m.appendPut a sup reuse).afterAppend t).addCards a.nc (m.seq + 1)), .seq (m.seq + 1)) := by
+      ((((m.appendPut a sup reuse).afterAppend t).addCards a.nc m.nextFrameId), .seq (m.seq + 1)) := by
   unfold Mem.putTail
   repeat' split
   all_goals first
     | (intro _; rfl)
     | (intro h; simp [Out.isAck] at h)
 
-theorem putTailG_walSeq (m : Mem) (a : PutArgs) (sup reuse : Option Nat) (t : Trace) :
-    m.putTailG .walSeq a sup reuse t = m.putTail a sup reuse t := by
+theorem putTailG_frameId (m : Mem) (a : PutArgs) (sup reuse : Option Nat) (t : Trace) :
+    m.putTailG .frameId a sup reuse t = m.putTail a sup reuse t := by
   unfold Mem.putTailG
   split
   · rename_i h
@@ -50,31 +51,31 @@ theorem putTailG_walSeq (m : Mem) (a : PutArgs) (sup reuse : Option Nat) (t : Tr
     rfl
   · rfl
 
-theorem putCoreG_walSeq (m : Mem) (a : PutArgs) (sup reuse : Option Nat) (t : Trace) :
-    m.putCoreG .walSeq a sup reuse t = m.putCore a sup reuse t := by
-  simp only [Mem.putCoreG, Mem.putCore, putTailG_walSeq]
+theorem putCoreG_frameId (m : Mem) (a : PutArgs) (sup reuse : Option Nat) (t : Trace) :
+    m.putCoreG .frameId a sup reuse t = m.putCore a sup reuse t := by
+  simp only [Mem.putCoreG, Mem.putCore, putTailG_frameId]
   rfl
 
-theorem updateG_walSeq (m : Mem) (id : Nat) (u : UpdArgs) (t : Trace) :
-    m.updateG .walSeq id u t = m.update id u t := by
-  simp only [Mem.updateG, Mem.update, putCoreG_walSeq]
+theorem updateG_frameId (m : Mem) (id : Nat) (u : UpdArgs) (t : Trace) :
+    m.updateG .frameId id u t = m.update id u t := by
+  simp only [Mem.updateG, Mem.update, putCoreG_frameId]
   rfl
 
-theorem stepG_walSeq (m : Mem) (op : Op) : stepG .walSeq m op = step m op := by
+theorem stepG_frameId (m : Mem) (op : Op) : stepG .frameId m op = step m op := by
   cases op with
-  | put a t => exact putCoreG_walSeq m a none none t
-  | update id u t => exact updateG_walSeq m id u t
+  | put a t => exact putCoreG_frameId m a none none t
+  | update id u t => exact updateG_frameId m id u t
   | _ => rfl
 
-theorem runG_walSeq (m : Mem) (ops : List Op) : runG .walSeq m ops = run m ops := by
+theorem runG_frameId (m : Mem) (ops : List Op) : runG .frameId m ops = run m ops := by
   induction ops generalizing m with
   | nil => rfl
-  | cons op ops ih => simp only [runG, run, stepG_walSeq, ih]
+  | cons op ops ih => simp only [runG, run, stepG_frameId, ih]
 
-theorem traceG_walSeq (m : Mem) (ops : List Op) : traceG .walSeq m ops = trace m ops := by
+theorem traceG_frameId (m : Mem) (ops : List Op) : traceG .frameId m ops = trace m ops := by
   induction ops generalizing m with
   | nil => rfl
-  | cons op ops ih => simp only [traceG, trace, stepG_walSeq, ih]
+  | cons op ops ih => simp only [traceG, trace, stepG_frameId, ih]
 
 /-! ## B. derived data is untouched by everything a put calls after its appends -/
 
